@@ -1059,15 +1059,49 @@ def m_limit( ctx ):
         res.ok( src, calls[0], 'every emit is shatter( base, length, limit=limit )' )
     else:
         res.bad( src, calls[0] if calls else mg, 'shatter calls in merge', 'each accumulated range must be emitted through shatter( base, length, limit=limit )' )
-    # shatter: default deduced from its own address argument, when no limit was given
+    # shatter: the effective limit, as a table: the statements ahead of the splitting loop are evaluated for every ( address of a bank edge,
+    # limit ) cell.  An explicit positive limit is honoured in every bank; without one ( None, 0 ) the per-bank default applies - 1968 for
+    # the Coil / Status banks, 123 for the register banks - deduced from the address being split; whatever is passed, the limit that
+    # reaches the loop is positive ( `min( count, limit )` of a negative limit never consumes the count: the generator does not end )
+    from .fold import run_block
     addr = sh.args.args[0].arg
-    dflt = [ i for i in sh.body if isinstance( i, ast.If ) and pmatch( i.test, 'not limit' ) ]
-    if dflt and addr in names_in( dflt[0] ) and [ v for v in ( try_fold( c ) for c in ast.walk( dflt[0] ) if isinstance( c, ast.Constant )) if v in ( 1968, 123 ) ]:
-        res.ok( src, dflt[0], 'shatter deduces the default limit (1968 coils/status, 123 registers) from the address it splits' )
-    elif dflt and any( is_call_to( c, 'transfer_limit' ) and c.args and dotted( c.args[0] ) == addr for c in ast.walk( dflt[0] )):
-        res.ok( src, dflt[0], 'shatter deduces the default limit from the address it splits (helper)' )
+    LIM = 'limit' if 'limit' in [ a_.arg for a_ in sh.args.args ] else None
+    loops = [ w for w in sh.body if isinstance( w, ( ast.While, ast.For )) ]
+    if LIM is None or not loops:
+        raise AnalysisError( 'shatter: limit parameter / splitting loop not found' )
+    head = sh.body[:sh.body.index( loops[0] )]
+    BITS = ( 1, 9999, 10001, 19999, 100001, 165536 )
+    REGS = ( 30001, 39999, 40001, 99999, 300001, 365536, 400001, 465536 )
+    wrong = []
+    cells = 0
+    for a0 in BITS + REGS:
+        for lim in ( None, 0, 1, 5, 123, 1968, 5000, -1 ):
+            env = { addr: a0, sh.args.args[1].arg: 10, LIM: lim }
+            try:
+                out = run_block( head, env, ignore_calls=( 'log', ))
+            except NoFold as exc:
+                raise AnalysisError( 'shatter: the statements ahead of the loop are not a decision fragment: %s' % exc )
+            cells += 1
+            got = env.get( LIM )
+            dflt = 1968 if a0 in BITS else 123
+            if out.kind != 'fall':
+                wrong.append(( a0, lim, repr( out ), 'a limit' ))
+            elif lim is not None and lim > 0:
+                if got != lim:
+                    wrong.append(( a0, lim, got, lim ))
+            elif lim in ( None, 0 ):
+                if got != dflt:
+                    wrong.append(( a0, lim, got, dflt ))
+            elif not ( isinstance( got, int ) and got > 0 ):
+                wrong.append(( a0, lim, got, 'a positive limit' ))
+    res.cells = cells
+    if wrong:
+        wrong.sort( key=lambda w_: ( w_[1] is not None and w_[1] < 0, w_[1] is None or w_[1] == 0 ))
+        a0, lim, got, want = wrong[0]
+        res.bad( src, head[-1] if head else sh, 'shatter( %d, ..., limit=%r ): effective limit %s ( %d of %d cells differ )' % ( a0, lim, got, len( wrong ), cells ),
+                 'specified: %s - an explicit positive limit is honoured in every register bank, none ( None / 0 ) means the default of the bank of the address being split ( 1968 Coils / Statuses, 123 registers ), and no limit that reaches the loop is negative ( the pieces would never use up the count )' % ( want, ))
     else:
-        res.bad( src, sh, 'shatter default limit', 'without an explicit limit, the per-bank default must be deduced from the address of the range being split' )
+        res.ok( src, head[-1] if head else sh, 'shatter: effective limit over %d ( bank edge x limit ) cells: explicit positive honoured, default per bank of the address, never negative' % cells )
     return res
 
 
@@ -1848,10 +1882,28 @@ def t_record( ctx ):
         else:
             res.bad( src, r[-1] if r else pr, r[-1].value if r else 'return', 'parse_record must return ( n, ( timestamp( f0 ), json.loads( f1 ), f2 ))' )
     # comments: writer prefixes '# ', reader skips blank and '#' lines and continues
-    if pfind( cm, "self._append( '# ' + _s + '\\n', encoding=encoding )" ):
-        res.ok( src, cm, "comment lines start with '# '" )
+    # ( the text handed to _append is evaluated for a one-line, a two-line and a blank-line-containing comment: every line of it must be a
+    # comment line - a bare second line of a multi-line comment is read back as a record, fails to parse, and ahead of a file's first
+    # record costs the whole file )
+    apps = [ c for c in ast.walk( cm ) if is_call_to( c, 'self._append' ) and c.args ]
+    if len( apps ) != 1:
+        res.bad( src, cm, 'logger.comment', "a comment must be appended to the file as '#' lines" )
     else:
-        res.bad( src, cm, 'logger.comment', "comment lines must be written as '# ' + text + newline" )
+        S = cm.args.args[1].arg
+        badtxt = None
+        for text in ( 'note', 'first\nsecond', 'a\n\nb' ):
+            try:
+                out = fold( apps[0].args[0], { S: text } )
+            except NoFold as exc:
+                raise AnalysisError( 'logger.comment: text handed to _append not foldable: %s' % exc )
+            lines = out.split( '\n' )
+            if not ( isinstance( out, str ) and lines[-1] == '' and all( l.startswith( '#' ) for l in lines[:-1] ) and text.replace( '\n', '' ) in out.replace( '\n', '' ).replace( '# ', '' ).replace( '#', '' )):
+                badtxt = ( text, out )
+                break
+        if badtxt is None:
+            res.ok( src, apps[0], "every line of a comment is written as a '#' line, newline-terminated" )
+        else:
+            res.bad( src, apps[0], 'logger.comment( %r ) writes %r' % badtxt, "every line written for a comment must start with '#' and end with a newline: a bare line is taken for a record by the reader ( unparsable; ahead of the first record of a file the whole file is given up )" )
     # (how blank / comment lines are skipped, and that a skipped line never ends up as the record, is decided by H-PARSE)
     return res
 
